@@ -41,6 +41,7 @@ var (
 	c17Seps     = []string{" ", " | ", "", " ", " · ", "\n"}
 	c17Labels   = []string{"", "Pages: ", "Page "}
 	c17HrefForm = []string{"abs", "rootrel"}
+	c17Pretty   = []bool{false, true}
 	c17PNLabels = [][2]string{{"Next", "Prev"}, {"next", "prev"}, {"Next", "Previous"}, {"next page", "prev page"}, {"Next page", "Previous page"}}
 )
 
@@ -63,18 +64,22 @@ func hrefForm(u, form string) string {
 const c17Body = "<p>alpha beta gamma delta epsilon zeta eta theta iota kappa lambda mu nu xi omicron pi rho sigma tau upsilon phi chi psi omega " +
 	"alpha beta gamma delta epsilon zeta eta theta iota kappa lambda mu nu xi omicron pi rho sigma tau upsilon.</p>\n"
 
-func renderPager(fam urlFamily, n, k int, wrapper, current, sep, label, form string, numbered bool, pn *[2]string) string {
+func renderPager(fam urlFamily, n, k int, wrapper, current, sep, label, form string, numbered bool, pn *[2]string, pretty bool) string {
 	var items []string
+	nl := ""
+	if pretty {
+		nl = "\n      " // pretty-printed markup: white-space text nodes around every item
+	}
 	wrap := func(s string) string {
 		switch wrapper {
 		case "span":
-			return "<span>" + s + "</span>"
+			return nl + "<span>" + nl + s + nl + "</span>"
 		case "li":
-			return "<li>" + s + sep + "</li>"
+			return nl + "<li>" + nl + s + sep + nl + "</li>"
 		case "td":
-			return "<td>" + s + sep + "</td>"
+			return nl + "<td>" + nl + s + sep + nl + "</td>"
 		}
-		return s
+		return nl + s
 	}
 	if pn != nil && k > 1 {
 		items = append(items, wrap(`<a href="`+htmlEsc(hrefForm(fam.link(k-1), form))+`">`+pn[1]+`</a>`))
@@ -176,25 +181,27 @@ func TestC17(t *testing.T) {
 			for _, sep := range c17Seps {
 				for _, label := range c17Labels {
 					for _, form := range c17HrefForm {
-						markup++
-						if !thorough && markup%12 != ((seed%12)+12)%12 {
-							continue
-						}
-						for _, fam := range c17Families {
-							for n := 2; n <= 12; n++ {
-								for k := 1; k <= n; k++ {
-									ex := c17Extra{AssertNext: true, AssertPrev: true,
-										Cell: fmt.Sprintf("family=%s N=%d k=%d wrapper=%s current=%s sep=%q label=%q href=%s", fam.name, n, k, wrapper, current, sep, label, form)}
-									if k < n {
-										ex.Next = normPagerURL(fam.link(k + 1))
+						for _, pretty := range c17Pretty {
+							markup++
+							if !thorough && int(mixIndex(markup)%24) != ((seed%24)+24)%24 {
+								continue
+							}
+							for _, fam := range c17Families {
+								for n := 2; n <= 12; n++ {
+									for k := 1; k <= n; k++ {
+										ex := c17Extra{AssertNext: true, AssertPrev: true,
+											Cell: fmt.Sprintf("family=%s N=%d k=%d wrapper=%s current=%s sep=%q label=%q href=%s pretty=%v", fam.name, n, k, wrapper, current, sep, label, form, pretty)}
+										if k < n {
+											ex.Next = normPagerURL(fam.link(k + 1))
+										}
+										if k > 1 {
+											ex.Prev = normPagerURL(fam.link(k - 1))
+										}
+										c := &Case{Property: "C17", Kind: "page-number", HTML: renderPager(fam, n, k, wrapper, current, sep, label, form, true, nil, pretty),
+											Opts: OptSpec{URL: fam.link(k), Algo: 1}}
+										c.SetExtra(ex)
+										run(c, "page-number:"+fam.name)
 									}
-									if k > 1 {
-										ex.Prev = normPagerURL(fam.link(k - 1))
-									}
-									c := &Case{Property: "C17", Kind: "page-number", HTML: renderPager(fam, n, k, wrapper, current, sep, label, form, true, nil),
-										Opts: OptSpec{URL: fam.link(k), Algo: 1}}
-									c.SetExtra(ex)
-									run(c, "page-number:"+fam.name)
 								}
 							}
 						}
@@ -212,23 +219,25 @@ func TestC17(t *testing.T) {
 					for li := range c17PNLabels {
 						for _, form := range c17HrefForm {
 							for _, wrapper := range []string{"none", "span", "li"} {
-								variant++
-								if !thorough && variant%6 != ((seed%6)+6)%6 {
-									continue
+								for _, pretty := range c17Pretty {
+									variant++
+									if !thorough && int(mixIndex(variant)%12) != ((seed%12)+12)%12 {
+										continue
+									}
+									pn := c17PNLabels[li]
+									ex := c17Extra{AssertNext: k < n, AssertPrev: k > 1,
+										Cell: fmt.Sprintf("family=%s N=%d k=%d numbered=%v labels=%v href=%s wrapper=%s pretty=%v", fam.name, n, k, numbered, pn, form, wrapper, pretty)}
+									if k < n {
+										ex.Next = normPagerURL(fam.link(k + 1))
+									}
+									if k > 1 {
+										ex.Prev = normPagerURL(fam.link(k - 1))
+									}
+									c := &Case{Property: "C17", Kind: "prev-next", HTML: renderPager(fam, n, k, wrapper, "strong", " ", "", form, numbered, &pn, pretty),
+										Opts: OptSpec{URL: fam.link(k), Algo: 0}}
+									c.SetExtra(ex)
+									run(c, "prev-next:"+fam.name)
 								}
-								pn := c17PNLabels[li]
-								ex := c17Extra{AssertNext: k < n, AssertPrev: k > 1,
-									Cell: fmt.Sprintf("family=%s N=%d k=%d numbered=%v labels=%v href=%s wrapper=%s", fam.name, n, k, numbered, pn, form, wrapper)}
-								if k < n {
-									ex.Next = normPagerURL(fam.link(k + 1))
-								}
-								if k > 1 {
-									ex.Prev = normPagerURL(fam.link(k - 1))
-								}
-								c := &Case{Property: "C17", Kind: "prev-next", HTML: renderPager(fam, n, k, wrapper, "strong", " ", "", form, numbered, &pn),
-									Opts: OptSpec{URL: fam.link(k), Algo: 0}}
-								c.SetExtra(ex)
-								run(c, "prev-next:"+fam.name)
 							}
 						}
 					}
